@@ -92,6 +92,10 @@ func TestSim(t *testing.T) {
 		job.MaxViol = 40
 	}
 	theT = t
+	// production code prints diagnostics with fmt.Println (e.g. wire.discardInput prints every read error)
+	if dn, err := os.OpenFile(os.DevNull, os.O_WRONLY, 0); err == nil {
+		os.Stdout = dn
+	}
 	worldInit()
 	defer worldCleanup()
 
